@@ -3,6 +3,7 @@ import WcModel.Driver.Spec
 import WcModel.Driver.Tidy
 import WcModel.Driver.Lists
 import WcModel.Driver.Glob
+import WcModel.Driver.WcWalk
 /-
   wcdriver: one request per line on stdin, one reply per line on stdout.
   `<cmd> <field> <field> …`; unknown or malformed requests answer `bad-op`.
@@ -25,7 +26,7 @@ def dispatch (cmd : String) (args : List String) : Option String :=
     | none =>
       match Driver.Glob.handlers.lookup cmd with
       | some h => h args
-      | none => none
+      | none => (Driver.WcWalk.handlers.lookup cmd).bind (fun h => h args)
 
 partial def loop (hin hout : IO.FS.Stream) : IO Unit := do
   let line ← hin.getLine
